@@ -29,6 +29,8 @@ fn other_src(r: &mut Rnd, parent: &Value) -> Value {
 fn variant_cfg(v: &str, seed: u64) -> Value {
     match v {
         "A" => json!({"own": {"id": 5}, "ports": [{"p2p": false, "asym": "asym"}, {"p2p": false, "asym": "asym"}], "seed": seed}),
+        // boundary clock with path trace and the real TlvForwarder between its two ports
+        "F" => json!({"own": {"id": 5, "ptrace": true}, "fwd": true, "ports": [{"p2p": false, "asym": "asym"}, {"p2p": false, "asym": "asym"}], "seed": seed}),
         "M" => json!({"own": {"id": 5}, "ports": [{"p2p": false, "asym": "asym"}, {"p2p": false, "asym": "asym"}], "seed": seed}),
         "B" => json!({"own": {"id": 5, "ptrace": true}, "ports": [{"p2p": false, "asym": "asym"}, {"p2p": false, "mo": true, "asym": "asym"}], "seed": seed}),
         _ => json!({"own": {"id": 5}, "ports": [{"p2p": false, "aml": [2, 9], "asym": "asym"}, {"p2p": true, "asym": "asym"}, {"p2p": false, "mo": true, "asym": "asym"}], "seed": seed}),
@@ -159,7 +161,12 @@ fn main() {
             let sid = snap["sync"]["id"].as_u64().unwrap_or(sync_n);
             let pid = snap["pd"]["id"].as_u64().unwrap_or(0);
             let parent = w.project(&json!({}))["ppi"].clone();
-            let ev = match r.below(40) {
+            // on a slave port the exchange events are favoured, otherwise measurements rarely complete
+            let slave_here = w.project(&json!({}))["pst"][(p - 1) as usize] == "S";
+            let roll = if slave_here && r.below(10) < 6 { [21u64, 22, 25, 26, 27, 28, 29, 30, 40, 40, 41][r.below(11) as usize] } else { r.below(40) };
+            let ev = match roll {
+                40 => json!({"e": "t", "k": "dreq", "p": p}),
+                41 => json!({"e": "t", "k": "filt", "p": p}),
                 0..=9 => {
                     // variant M: many distinct masters on one port (the foreign master list holds at most eight)
                     let many = variant == "M";
@@ -173,8 +180,14 @@ fn main() {
                     let seq = match r.below(10) { 0 => (cur + 65535) % 65536, 1 => (cur + 65534) % 65536, 2 => { seqs.insert(key, (cur + 2) % 65536); (cur + 1) % 65536 } _ => { seqs.insert(key, (cur + 1) % 65536); cur } };
                     let g = GMS[[0usize, 1, 2, 3, 4, 2][gi]];
                     let mut ev = json!({"e": "ann", "p": p, "src": src, "seq": seq, "g": g, "steps": ch(&mut r, &[0u64, 0, 1, 2, 254, 255]), "tp": tp(&mut r)});
-                    if variant == "B" && r.below(3) == 0 { let paths = [vec![1u64, 2], vec![2], vec![1, 5, 2], vec![7, 8, 9, 2]]; ev["path"] = json!(paths[r.below(4) as usize].clone()); }
-                    if r.below(4) == 0 { ev["tlvs"] = json!([{"ty": ch(&mut r, &[3u64, 9, 16384, 32768]), "len": 2 * r.below(4), "tag": 0}]); }
+                    if (variant == "B" || variant == "F") && r.below(3) == 0 { let paths = [vec![1u64, 2], vec![2], vec![1, 5, 2], vec![7, 8, 9, 2]]; ev["path"] = json!(paths[r.below(4) as usize].clone()); }
+                    if r.below(4) == 0 || (variant == "F" && r.below(2) == 0) {
+                        let mut tl = vec![json!({"ty": ch(&mut r, &[3u64, 9, 16384, 32768, 32767]), "len": 2 * r.below(4), "tag": r.below(4)})];
+                        if variant == "F" && r.below(3) == 0 { tl.push(json!({"ty": ch(&mut r, &[9u64, 20000, 4]), "len": 2 * r.below(200), "tag": r.below(4)})); }
+                        // the tag stands for the value's octets: an empty value has none
+                        for t in tl.iter_mut() { if t["len"] == 0 { t["tag"] = json!(0); } }
+                        ev["tlvs"] = Value::Array(tl);
+                    }
                     match r.below(20) { 0 => { ev["dom"] = json!(3); } 1 => { ev["sdo"] = json!(256); } 2 => { ev["ver"] = json!(1); } _ => {} }
                     ev
                 }
